@@ -420,13 +420,37 @@ func r023(c *an.Ctx) {
 	}
 	name := "(*pkg/resource.Collection).Delete"
 	w := lockWorld(c)
-	li := w.Info[fn]
+	// the locked step (re-check, delete, publish) lives in Delete itself or in a helper it delegates to
+	isDel := func(in ssa.Instruction) bool {
+		cl, ok := in.(*ssa.Call)
+		return ok && an.CalleeName(cl) == "builtin delete"
+	}
+	body := an.BodyWith(fn, isDel)
+	if body == nil {
+		body = fn
+	}
+	defer an.Focus(fn)()
+	li := w.Info[body]
 	var deletes []*ssa.Call
-	an.Instrs(fn, func(in ssa.Instruction) {
-		if cl, ok := in.(*ssa.Call); ok && an.CalleeName(cl) == "builtin delete" {
-			deletes = append(deletes, cl)
+	an.Instrs(body, func(in ssa.Instruction) {
+		if isDel(in) {
+			deletes = append(deletes, in.(*ssa.Call))
 		}
 	})
+	// sameItem: the value `checked` of the locked step is `base` of Delete (identical, or the argument it was given)
+	sameItem := func(base, checked ssa.Value) bool {
+		if base == checked || an.SameValues(base, checked) {
+			return true
+		}
+		for _, s0 := range an.Sources(checked) {
+			for _, s1 := range an.Sources(base) {
+				if s0 == s1 {
+					return true
+				}
+			}
+		}
+		return false
+	}
 	if len(deletes) == 0 {
 		c.Unk(rule, name+"|delete", fn.Pos(), "no delete(byId, id) found in Collection.Delete")
 		return
@@ -467,7 +491,7 @@ func r023(c *an.Ctx) {
 				// every precondition evaluation reads `checked`
 				bad := ""
 				nPre := 0
-				an.Instrs(fn, func(in ssa.Instruction) {
+				eachInstrDeep02(fn, func(in ssa.Instruction) {
 					cl, ok := in.(*ssa.Call)
 					if !ok {
 						return
@@ -486,8 +510,11 @@ func r023(c *an.Ctx) {
 					nPre++
 					usesChecked := false
 					for _, a := range cl.Call.Args {
-						if base, _, f, ok := an.FieldOf(a); ok && f == "body" && base == checked {
-							usesChecked = true
+						// the argument itself, or (in a helper given the body) what the helper was called with
+						for _, a2 := range append([]ssa.Value{a}, an.Sources(a)...) {
+							if base, _, f, ok := an.FieldOf(a2); ok && f == "body" && sameItem(base, checked) {
+								usesChecked = true
+							}
 						}
 					}
 					if !usesChecked {
@@ -509,7 +536,7 @@ func r023(c *an.Ctx) {
 			"delete guarded by reloaded == checked (reloaded under the exclusive lock; preconditions evaluated on checked)", why)
 		// REMOVE published under the same lock
 		sent := false
-		for _, s := range an.CallsTo(fn, "(*"+an.ModulePath+"/internal/minibus.Bus).Send") {
+		for _, s := range an.CallsTo(body, "(*"+an.ModulePath+"/internal/minibus.Bus).Send") {
 			if an.Dominates(d, s) && an.HeldContinuously(li, lockPath, an.WLock, d, s) {
 				sent = true
 			}
@@ -517,33 +544,44 @@ func r023(c *an.Ctx) {
 		c.Check(sent, rule, cons+" publish under lock", d.Pos(), "the REMOVE event is sent inside the exclusive region of the delete",
 			"no Bus.Send inside the exclusive region of the delete: a later write can publish before this REMOVE")
 	}
-	// bounded retry ending in Unavailable
-	bounded := false
+	// bounded retry ending in Unavailable: a loop header that tests a counter against a constant and whose exit
+	// returns Unavailable (whatever go/ssa calls the blocks: for, range-over-int)
+	bounded, hasLoop := false, false
 	for _, b := range fn.Blocks {
-		if b.Comment != "for.loop" {
+		// a loop header: some predecessor is dominated by it (a back edge)
+		isHeader := false
+		for _, p := range b.Preds {
+			if b.Dominates(p) {
+				isHeader = true
+			}
+		}
+		if !isHeader {
 			continue
 		}
-		if iff, ok := b.Instrs[len(b.Instrs)-1].(*ssa.If); ok {
-			if bo, ok := iff.Cond.(*ssa.BinOp); ok && (bo.Op == token.LSS || bo.Op == token.LEQ) {
-				if _, isC := an.ConstInt(bo.Y); isC {
-					exit := b.Succs[1]
-					for _, in := range exit.Instrs {
-						if r, ok := in.(*ssa.Return); ok {
-							for _, v := range an.ValuesAt(r.Results[len(r.Results)-1]) {
-								if code, ok := an.StatusCode(v); ok && code == an.CodeUnavailable {
-									bounded = true
-								}
-							}
+		hasLoop = true
+		// the test may sit in the header or (rotated loops) in the block that jumps back
+		for _, tb := range append([]*ssa.BasicBlock{b}, b.Preds...) {
+			iff, ok := tb.Instrs[len(tb.Instrs)-1].(*ssa.If)
+			if !ok {
+				continue
+			}
+			bo, ok := iff.Cond.(*ssa.BinOp)
+			if !ok || (bo.Op != token.LSS && bo.Op != token.LEQ) {
+				continue
+			}
+			if _, isC := an.ConstInt(bo.Y); !isC {
+				continue
+			}
+			exit := tb.Succs[1]
+			for _, in := range exit.Instrs {
+				if r, ok := in.(*ssa.Return); ok {
+					for _, v := range an.ValuesAt(r.Results[len(r.Results)-1]) {
+						if code, ok := an.StatusCode(v); ok && code == an.CodeUnavailable {
+							bounded = true
 						}
 					}
 				}
 			}
-		}
-	}
-	hasLoop := false
-	for _, b := range fn.Blocks {
-		if b.Comment == "for.loop" || b.Comment == "for.body" {
-			hasLoop = true
 		}
 	}
 	if hasLoop {
@@ -565,6 +603,20 @@ func lookupOf(v ssa.Value) *ssa.Lookup {
 		}
 	case *ssa.Lookup:
 		return x
+	case *ssa.UnOp:
+		// a result variable kept in memory (named results with a deferred unlock): the one value stored into it
+		var found *ssa.Lookup
+		for _, s := range an.SourcesOpaque(v) {
+			if s == v {
+				return nil
+			}
+			l := lookupOf(s)
+			if l == nil || (found != nil && found != l) {
+				return nil
+			}
+			found = l
+		}
+		return found
 	}
 	return nil
 }
@@ -641,5 +693,12 @@ func r027(c *an.Ctx) {
 	}
 	if n < 2 {
 		c.Unk(rule, "pkg/resource|GetAndUpdate callers", 0, fmt.Sprintf("%d GetAndUpdate call sites found in Value.set / Collection.Update, 2 expected", n))
+	}
+}
+
+func eachInstrDeep02(fn *ssa.Function, f func(ssa.Instruction)) {
+	an.Instrs(fn, f)
+	for _, h := range an.TransparentCalleesOf(fn, 2) {
+		an.Instrs(h, f)
 	}
 }
